@@ -11,7 +11,7 @@ theorem issued_from_imported_names_issuer (crypto : Bool) (ca : CertInputs)
     (h : importCa crypto (modelTbs ca) = .ok p')
     (hpl : ∀ n, ca.p.isCa = .ca (some n) → n ≤ 255)
     (hip : ∀ o, SanType.ip o ∈ ca.p.sans → o.length = 4 ∨ o.length = 16)
-    (hother : ∀ oid v, SanType.otherName oid v ∈ ca.p.sans → utf8Valid v = true)
+    (hother : ∀ oid v, SanType.otherName oid v ∈ ca.p.sans → utf8Valid v = true ∧ ∀ x ∈ oid, x < 2 ^ 64)
     (hnc : ∀ nc, ca.p.nameConstraints = some nc →
       nc.permitted.all ImportFields.subtreeSupported = true ∧
       nc.excluded.all ImportFields.subtreeSupported = true)
